@@ -356,6 +356,8 @@ def check_search(m, f, schema, res_wl, res_bound):
                     extra_entry = (an['cond'], ct)
     for t, pol, dep in atoms:
         tt_ = strip_conv(t)
+        if tt_[0] == 'var' and s.u.decl(tt_[1]).get('ctype', '').replace('const ', '') == 'bool' and s.u.decl(tt_[1]).get('constq'):
+            tt_ = strip_conv(resolve(s, tt_))       # a named const bool stands for the test it was initialised with
         form = None
         if tt_[0] == 'un' and tt_[1] == '!' and pol:
             x = strip_conv(tt_[3])
